@@ -58,18 +58,29 @@ func ruleFormatExchange(w *World, r *Report, pfx string) {
 		r.Unresolved("anchor", "decor.DSyncWidth / DextraSpace", "constants not found")
 		return
 	}
-	isStrW := func(v ssa.Value) bool {
-		c, ok := stripConv(v).(*ssa.Call)
+	var curPath *Path
+	isStrWV := func(v Val) bool {
+		c, ok := stripConv(v.V).(*ssa.Call)
 		if !ok {
 			return false
 		}
 		sc := c.Call.StaticCallee()
-		return sc != nil && sc.Name() == "StringWidth" && len(c.Call.Args) == 1 && w.isParamOf(c.Call.Args[0], fn, 1)
+		if sc == nil || sc.Name() != "StringWidth" || len(c.Call.Args) != 1 {
+			return false
+		}
+		arg := c.Call.Args[0]
+		if curPath != nil {
+			arg = curPath.R(Val{arg, v.F, v.E}).V
+		}
+		return w.isParamOf(arg, fn, 1)
 	}
+	isStrW := func(v ssa.Value) bool { return isStrWV(Val{V: v}) }
+	_ = isStrW
 	bad := ""
 	var wit []string
 	sawSync, sawPlain := false, false
-	n, over := w.enumPaths(fn, pathOpts{}, func(p *Path) {
+	n, over := w.enumPaths(fn, pathOpts{InlineDepth: 2, Inline: func(_ ssa.CallInstruction, c *ssa.Function) bool { return c.Pkg == w.Decor }}, func(p *Path) {
+		curPath = p
 		if bad != "" || p.Exit != "return" {
 			return
 		}
@@ -108,7 +119,7 @@ func ruleFormatExchange(w *World, r *Report, pfx string) {
 				return
 			}
 			natural = p.val(sends[0], s.X)
-			if p.Ret[1].V != ssa.Value(rv) {
+			if p.R(p.Ret[1]).V != ssa.Value(rv) {
 				bad = "the width returned under the sync bit is not the width received from the column distributor"
 				wit = p.describe()
 				return
@@ -127,9 +138,11 @@ func ruleFormatExchange(w *World, r *Report, pfx string) {
 			return
 		}
 		// the natural width: max(W, strwidth), +1 under the extra-space bit only when W does not apply
+		natural = p.R(natural)
 		nv := stripConv(natural.V)
+		nvV := Val{nv, natural.F, natural.E}
 		switch {
-		case p.hasCmp(-1, token.GTR, loadOf("decor.WC", "W"), func(v Val) bool { return isStrW(v.V) }):
+		case p.hasCmp(-1, token.GTR, loadOf("decor.WC", "W"), isStrWV):
 			if !isLoad(Val{V: nv}, "decor.WC", "W") {
 				bad = "with W larger than the text the negotiated/returned width is not W"
 				wit = p.describe()
@@ -140,12 +153,12 @@ func ruleFormatExchange(w *World, r *Report, pfx string) {
 			if ok {
 				k, _ = constInt(add.Y)
 			}
-			if !ok || add.Op != token.ADD || k != 1 || !isStrW(add.X) {
+			if !ok || add.Op != token.ADD || k != 1 || !isStrWV(p.R(Val{add.X, nvV.F, nvV.E})) {
 				bad = "with the extra-space bit the negotiated/returned width is not text width + 1"
 				wit = p.describe()
 			}
 		case p.bitAtom(extraBit) == triFalse:
-			if !isStrW(nv) {
+			if !isStrWV(nvV) {
 				bad = "the negotiated/returned width is not the text's display width"
 				wit = p.describe()
 			}
@@ -157,7 +170,7 @@ func ruleFormatExchange(w *World, r *Report, pfx string) {
 		okFill := false
 		for _, ev := range p.Events {
 			if c, ok := ev.In.(*ssa.Call); ok && isLoad(Val{V: c.Call.Value}, "decor.WC", "fill") && len(c.Call.Args) == 2 {
-				if p.val(ev, c.Call.Args[1]).V == p.Ret[1].V && p.Ret[0].V == ssa.Value(c) {
+				if p.val(ev, c.Call.Args[1]).V == p.R(p.Ret[1]).V && p.R(p.Ret[0]).V == ssa.Value(c) {
 					okFill = true
 				}
 			}
@@ -312,7 +325,7 @@ func ruleDecorExchange(w *World, r *Report, pfx string) {
 		construct := "Decor of " + shortType(fn.Signature.Recv().Type())
 		bad := ""
 		var wit []string
-		nP, over := w.enumPaths(fn, pathOpts{}, func(p *Path) {
+		nP, over := w.enumPaths(fn, pathOpts{InlineDepth: 2, Inline: w.helperInline(fn)}, func(p *Path) {
 			if bad != "" || p.Exit != "return" {
 				return
 			}
@@ -650,7 +663,9 @@ func ruleSyncArm(w *World, r *Report, pfx string) {
 	sawRebuild, sawKeep := false, false
 	wst := w.Func("mpb.(*Bar).wSyncTable")
 	n, over := w.enumPaths(loop, pathOpts{Start: arms[syncCmd], StopAt: stop, MaxPaths: 50000, InlineDepth: 2,
-		Inline: func(_ ssa.CallInstruction, c *ssa.Function) bool { return c.Pkg == w.Mpb && c != wst && c != syncWidthFn && c.Signature.Recv() == nil }}, func(p *Path) {
+		Inline: func(_ ssa.CallInstruction, c *ssa.Function) bool {
+			return c.Pkg == w.Mpb && c != wst && c != syncWidthFn && c.Signature.Recv() == nil
+		}}, func(p *Path) {
 		if bad != "" || p.Exit != "stop" {
 			return
 		}
